@@ -135,6 +135,7 @@ def exactfit_cases(ctx, opts, tag):
     return out
 
 def standard_run(ctx, pid, opts='r', lock_heavy=False, also=(), model_ok=True, n_oracle=None, n_corr=None):
+    ctx.also_props = tuple(also)
     quick = ctx.tier == 'quick'
     n_o = n_oracle or (3 if quick else 12)
     n_c = n_corr or (2 if quick else 8)
@@ -153,6 +154,7 @@ def standard_run(ctx, pid, opts='r', lock_heavy=False, also=(), model_ok=True, n
     return out
 
 def replay(ctx, pid, rp, also=()):
+    ctx.also_props = tuple(also)
     f = rp.get('failure')
     if f:
         run_oracle(ctx, pid, [f['case']], also=also)
